@@ -295,7 +295,7 @@ func TestC12_Sign(t *testing.T) {
 		// hash algorithm / length classes
 		switch rapid.IntRange(0, 5).Draw(rt, "hashclass") {
 		case 0:
-			c.Base.HashAlg = rapid.SampledFrom([]int64{-14, -15, -17, 0, 1, -100000, -7}).Draw(rt, "unknown-hash")
+			c.Base.HashAlg = rapid.SampledFrom([]int64{-14, -15, -17, 0, 1, -100000, -7, -9223372036854775808, -9223372036854775807, 9223372036854775807, -45, -42}).Draw(rt, "unknown-hash")
 			c.Base.Hash = gen.Blob(rt, "uhash", rapid.IntRange(0, 70).Draw(rt, "uhashlen"))
 		case 1:
 			n := hashLen(c.Base.HashAlg) + rapid.SampledFrom([]int{-1, 1, -32, 16}).Draw(rt, "lendelta")
@@ -479,7 +479,7 @@ func genC12VerifyCase(rt *rapid.T) c12VerifyCase {
 		ho.Alg = &alg
 		c := c12VerifyCase{Key: gen.KeyMat(rt, alg), Entropy: rapid.SliceOfN(rapid.Byte(), 4, 4).Draw(rt, "entropy")}
 		c.Prot, c.Unprot = gen.Headers(rt, ho)
-		hashAlg := rapid.SampledFrom([]int64{-16, -43, -44, -16, -15}).Draw(rt, "hashalg")
+		hashAlg := rapid.SampledFrom([]int64{-16, -43, -44, -16, -15, -9223372036854775808, 9223372036854775807, -45}).Draw(rt, "hashalg")
 		n := hashLen(hashAlg)
 		if n < 0 {
 			n = rapid.IntRange(0, 70).Draw(rt, "free-len")
